@@ -268,6 +268,31 @@ Proof.
   rewrite strip_conn_listed_lookup. destruct (existsb _ _); [reflexivity|exact Hp].
 Qed.
 
+(* ... and when the client itself names X-Forwarded-For in a Connection line: the Connection-listed
+   removal runs BEFORE the prior value is read, so nothing the client sent under that name survives
+   and the backend sees the client address alone *)
+Lemma xff_listed_in_connection h remote ip port tok :
+  split_host_port remote = Some (ip, port) ->
+  In tok (all_conn_tokens h) -> canon_key tok = K_XFF ->
+  hlookup (create_upstream_headers remote h) K_XFF = Some [ip].
+Proof.
+  intros Hs Hin Hc. rewrite (xff_appended _ _ _ _ Hs).
+  rewrite strip_hop_req_eq, hop_fold_none; [reflexivity|].
+  rewrite strip_conn_listed_lookup.
+  assert (E : existsb (fun t => beq (canon_key t) K_XFF) (all_conn_tokens h) = true).
+  { apply existsb_exists. exists tok. split; [exact Hin|]. rewrite Hc. apply beq_refl. }
+  rewrite E. reflexivity.
+Qed.
+
+Definition wit_xff_conn : hdr :=
+  [(K_CONNECTION, [bs "close, x-forwarded-for"%string]); (K_XFF, [bs "6.6.6.6"%string; bs "10.0.0.1"%string])].
+Lemma xff_listed_nonvacuous :
+  (split_host_port (bs "192.0.2.7:4711"%string) = Some (bs "192.0.2.7"%string, bs "4711"%string)) /\
+  (In (bs "x-forwarded-for"%string) (all_conn_tokens wit_xff_conn)) /\
+  (canon_key (bs "x-forwarded-for"%string) = K_XFF) /\
+  (hlookup (create_upstream_headers (bs "192.0.2.7:4711"%string) wit_xff_conn) K_XFF = Some [bs "192.0.2.7"%string]).
+Proof. vm_compute. repeat split; auto. Qed.
+
 (* ---------- singleJoiningSlash ---------- *)
 Lemma has_suffix_slash a : has_suffix a [SLASH] = true -> a = removelast a ++ [SLASH].
 Proof.
@@ -1734,4 +1759,15 @@ Lemma cached_downstream_fn_differs :
 Proof.
   split; [vm_compute; reflexivity|]. split; [vm_compute; reflexivity|]. split; [|vm_compute; reflexivity].
   intros E. apply (f_equal acao) in E. vm_compute in E. discriminate E.
+Qed.
+
+(* headers the proxy adds by rule (transparent: Host, X-Real-IP, X-Forwarded-Proto, X-Forwarded-Port;
+   any header_upstream rule) when the client names them in a Connection line: the removal comes
+   first, so the rules act on an ABSENT header - nothing of the client's value reaches the backend *)
+Lemma proxy_added_listed_in_connection e h0 rules res h remote tok :
+  In tok (all_conn_tokens h) -> canon_key tok <> K_XFF ->
+  hlookup (mutate_headers e h0 rules res (create_upstream_headers remote h)) (canon_key tok) =
+  fold_left vop_apply (vops_for (subst_of e h0) rules (canon_key tok) ++ revops_for (subst_of e h0) res (canon_key tok)) None.
+Proof.
+  intros Hin Hne. rewrite mutate_headers_lookup, (conn_listed_removed h remote tok Hin Hne). reflexivity.
 Qed.
